@@ -114,6 +114,7 @@ pub fn exec_scenario(eng: &dyn Engine, prop: &str, sc: &Value, verbose: bool) ->
 }
 
 pub fn worker_main(prop: &str, thorough: bool, seed: u64, from: u64, to: u64, careful: bool) -> i32 {
+    die_with_parent();
     install_panic_hook();
     crate::set_alloc_cap(alloc_cap_for(prop));
     let eng = match engine_for(prop) {
@@ -149,7 +150,15 @@ pub fn worker_main(prop: &str, thorough: bool, seed: u64, from: u64, to: u64, ca
 }
 
 /// `axsim exec-one <prop>`: scenario on stdin, deviations as one JSON line on stdout.
+/// a child must not outlive its supervisor (a hung run would spin forever once nobody waits for it)
+fn die_with_parent() {
+    unsafe {
+        libc::prctl(libc::PR_SET_PDEATHSIG, libc::SIGKILL);
+    }
+}
+
 pub fn exec_one_main(prop: &str, verbose: bool) -> i32 {
+    die_with_parent();
     install_panic_hook();
     crate::set_alloc_cap(alloc_cap_for(prop));
     let eng = match engine_for(prop) {
